@@ -139,6 +139,8 @@ using E7 = cnl::elastic_integer<7>;
 using E15 = cnl::elastic_integer<15>;
 using EU7 = cnl::elastic_integer<7, unsigned>;
 using EU15 = cnl::elastic_integer<15, unsigned>;
+using EU32 = cnl::elastic_integer<32, unsigned>;
+using EU64 = cnl::elastic_integer<64, unsigned>;
 using E3 = cnl::elastic_integer<3>;
 using E31 = cnl::elastic_integer<31>;
 
